@@ -7,8 +7,9 @@
 //!  * mixed   random histories interleaving genuine traffic (wraps, reordering) with multi-bit
 //!            forgeries: sequence numbers far ahead, forged SRTCP indices (incl. 0x7FFFFFFF), random
 //!            bodies, re-tagged packets, truncated tags;
-//!  * session SrtpSession with forged packets on live and on fresh SSRCs; the F23 replay (33 forged
-//!            SSRCs, genuine context idle for 61 s of wall clock) runs in a background thread.
+//!  * session SrtpSession with forged packets on live and on up to 60 fresh SSRCs; the F23 replay (33
+//!            forged SSRCs, genuine context idle for 61 s of wall clock; must pass since the fix) runs in
+//!            a background thread.
 //! Direct oracle (independent of the model): a forged datagram returns an error and no packet, never
 //! panics, leaves the rollover counter (Debug impl) and the SRTCP index (observed through a clone)
 //! unchanged; a *shadow receiver* fed only the genuine datagrams returns identical results for them
@@ -356,7 +357,7 @@ fn session_case(r: &mut Rng, p: &Prof) -> (serde_json::Value, Option<String>, St
             let f = if r.chance(1, 4) {
                 // genuine body under a sequence number far ahead (also as the very first datagram of the SSRC)
                 let mut v = raw.clone(); let q = pk.header.sequence_number.wrapping_add(*r.pick(&[32769u16, 40000, 32768, 50000])); v[2..4].copy_from_slice(&q.to_be_bytes()); v
-            } else if r.chance(1, 2) || fresh >= 20 {
+            } else if r.chance(1, 2) || fresh >= 60 {
                 let mut v = raw.clone(); let n = v.len(); let i = r.range(2, n as u64 - 1) as usize; v[i] ^= 1 << r.below(8); if i >= 8 && i < 12 { v[i] ^= 0; } v
             } else {
                 fresh += 1;
@@ -473,13 +474,16 @@ fn main() {
         let (desc, fail, key) = session_case(&mut r, p);
         out.push(Case { term: "-".into(), desc, oracle_fail: fail, known: None, nontrivial: true, key, kind: "session".into() });
     }
-    // F23 replay result
+    // F23 replay result (fixed in /repo 9085571: forged SSRCs create no receive context, so the genuine
+    // context survives the flood and the 61 s idle period; must pass)
     let ((acc, shadow_acc, rejected), (acc1, shadow1, rejected1)) = evict.join().unwrap();
-    let hit = rejected && shadow_acc && !acc;
     out.push(Case { term: "-".into(),
         desc: json!({"kind": "eviction-replay", "idle_s": 61, "all_33_forged_rejected": rejected, "genuine_accepted_by_shadow_session": shadow_acc, "genuine_accepted_after_forgeries": acc}),
-        oracle_fail: if !rejected { Some("eviction replay: a forged packet was accepted".into()) } else if !shadow_acc { Some("eviction replay: the shadow session refused the genuine packet".into()) } else { None },
-        known: if hit { Some("table_pressure_eviction".into()) } else { None }, nontrivial: true, key: "eviction-61".into(), kind: "eviction-replay".into() });
+        oracle_fail: if !rejected { Some("eviction replay: a forged packet was accepted".into()) }
+            else if !shadow_acc { Some("eviction replay: the shadow session refused the genuine packet".into()) }
+            else if !acc { Some("genuine stream at ROC 1, 33 forged datagrams with fresh SSRCs (all rejected), 61 s idle: the next genuine packet is refused although the shadow session accepts it (rejected datagrams created receive contexts and evicted the genuine one)".into()) }
+            else { None },
+        known: None, nontrivial: true, key: "eviction-61".into(), kind: "eviction-replay".into() });
     out.push(Case { term: "-".into(),
         desc: json!({"kind": "eviction-replay", "idle_s": 1, "all_33_forged_rejected": rejected1, "genuine_accepted_by_shadow_session": shadow1, "genuine_accepted_after_forgeries": acc1}),
         oracle_fail: if !(rejected1 && shadow1 && acc1) { Some("33 forged SSRCs without the 60 s idle period already disturb the genuine stream".into()) } else { None },
